@@ -484,7 +484,7 @@ def run_shard(shard, ctx):
             if rng.random() < 0.2 and uri:
                 pos = rng.randrange(0, len(uri) + 1)
                 uri = uri[:pos] + rng.choice(["\x80", "\xff", "\xe9"]) + uri[pos:]  # a byte >= 0x80 somewhere in a (stager-looking) URI
-            elif rng.random() < 0.2:
+            elif i >= len(fixed) and rng.random() < 0.2:
                 # bytes that form a valid multi-byte UTF-8 sequence; the checksum is over the bytes of the request target: URIs
                 # whose BYTE sum is 92 (stagers) and URIs whose sum would be 92 only if the sequence counted as one character
                 seq = rng.choice(["\xc3\xa9", "\xe2\x82\xac", "\xc2\xa0", "\xc5\x81"])
